@@ -1,9 +1,41 @@
 (* Entry/EntryC03.v — C03 on the observed history (format: DispatchDecode.v).
    Every interleaving the monitor accepts is judged by the monitor only: e_agree := e_oracle
-   (no separate trace-inclusion search in the model; see notes/design-C03.md). *)
+   (no separate trace-inclusion search in the model; see notes/design-C03.md).
+   * connection up / EOF / Close():  C03_ok on the log; when the connection stayed up every line
+     must also have been DELIVERED to its foreground handlers, whole (a handler that gets a cut or
+     glued line reports an impossible serial), exactly once: C16_ok (the same predicate as in
+     C16_siblings_and_recovery) — "lines received ... are delivered ... in exactly the order".
+   * "reconnect while closing" (endmode 3): one Conn, two connections; the lines of connection 2
+     continue the serials of connection 1.  Gate only what C03 states, with C03_ok on two projections
+     of the log: (a) without the DISCONNECTED events: one line at a time, in order, ACROSS the
+     reconnect (no handler of connection 2 may start while a handler of connection 1 runs);
+     (b) connection 1 alone (serials below close_at, and DISCONNECTED): DISCONNECTED only after every
+     foreground invocation of that connection.  DISCONNECTED is dispatched by the caller of Close()
+     after the connection lock is released, so its handlers may legitimately overlap connection 2's
+     traffic: not gated. *)
 From Verif Require Import EntryBase DispatchLts DispatchDecode.
 
-Definition oracle_C03 (i o : list bytes) : bool := dsp_judge C03_ok i o.
+Definition is_disc (e : event) : bool :=
+  match e with
+  | EvEnter KDiscFg _ _ _ | EvExit KDiscFg _ _ _ | EvPanic KDiscFg _ _ | EvRecovered KDiscFg _ _
+  | EvEnter KDiscBg _ _ _ | EvExit KDiscBg _ _ _ | EvPanic KDiscBg _ _ | EvRecovered KDiscBg _ _ => true
+  | _ => false
+  end.
+
+Definition ev_serial (e : event) : nat :=
+  match e with
+  | EvApplied k | EvEnter _ k _ _ | EvExit _ k _ _ | EvPanic _ k _ | EvRecovered _ k _ => k
+  end.
+
+Definition judge_C03 (i : list bytes) (sess : session) (h : list event) : bool :=
+  match dsp_endmode i with
+  | 0%nat => C03_ok sess h && C16_ok sess h
+  | 3%nat => C03_ok sess (filter (fun e => negb (is_disc e)) h)
+         && C03_ok sess (filter (fun e => is_disc e || Nat.ltb (ev_serial e) (dsp_close_at i)) h)
+  | _ => C03_ok sess h
+  end.
+
+Definition oracle_C03 (i o : list bytes) : bool := dsp_judge (judge_C03 i) i o.
 
 Definition entry_C03 : entry :=
   {| e_model := fun _ => []; e_agree := oracle_C03; e_oracle := oracle_C03 |}.
